@@ -178,14 +178,14 @@ def run(ctx):
     dist["dec_roundtrip"] = n_rt; dist["dec_mutated"] = n_mut; dist["dec_exhaustive_upto_len"] = maxlen
     dist["dec_exhaustive_cases"] = n_exh; dist["dec_corpus"] = len(CORPUS_DEC)
     for prof in profiles:
-        # the model (unary numbers, ~2 ms per case) sees every case except the expensive ones and, of the 16.7 M
-        # three-byte strings of the thorough tier, every 16th (the implementation sees all of them, with the
+        # the model (unary numbers: a claimed run length of 2^21 costs tens of ms) sees every case except the expensive ones and, of the 16.7 M
+        # three-byte strings of the thorough tier, every 251st (the implementation sees all of them, with the
         # totality/bound monitors of check_dec_results; the theorem C14_decode_total covers all strings anyway)
         first3 = len(dec_ops) - 256 ** 3 if maxlen >= 3 else len(dec_ops)
         counter = [0]      # correspond() asks the filter once per op, in order
         def small(op, line):
             i = counter[0]; counter[0] += 1
-            if i >= first3 and (i - first3) % 16 != 0:
+            if i >= first3 and (i - first3) % 251 != 0:
                 return False
             m = PEAK.search(line)
             return (not m) or int(m.group(1)) <= 200000
